@@ -103,9 +103,9 @@ func diffMap(got, want map[string]string) string {
 }
 
 type c11State struct {
-	S1, S2 *c11Snap
-	armedK int
-	K0     int
+	S1, S2, S3 *c11Snap
+	armedK     int
+	K0         int
 }
 
 func c11st(w *World) *c11State {
@@ -184,10 +184,43 @@ func init() {
 	RegisterAction("c11_capture", func(w *World, idx int, a *Action) {
 		st := c11st(w)
 		sn := w.c11Capture(0)
-		if a.Str == "S1" {
+		switch a.Str {
+		case "S1":
 			st.S1 = sn
-		} else {
+		case "S3":
+			st.S3 = sn
+		default:
 			st.S2 = sn
+		}
+	})
+	// c11_second_restart: after the restarted instance completed a snapshot of its
+	// own (S3), it is killed and started once more: what the first crash left on
+	// the disk (temporary files, a half-written snapshot) must not leak into a
+	// later snapshot.
+	RegisterAction("c11_second_restart", func(w *World, idx int, a *Action) {
+		st := c11st(w)
+		in := w.Insts[0]
+		if in.App == nil || st.S3 == nil {
+			return
+		}
+		w.CrashInst(0, func(path string) int { return 1 })
+		w.H.AddEvent("c11-second-kill", in.Name, "")
+		w.Online.Ob("second-restart-succeeds")
+		if err := w.StartInst(0); err != nil {
+			w.Online.Fail("C11", "C11/refuses-to-start-on-own-files:second-generation", w.H.now(), "after the crash (before operation %d), a restart, one completed snapshot and a kill, the instance does not start: %v", st.armedK, err)
+			return
+		}
+		w.probeMutes("C11", 0, "after the second restart")
+		got := w.c11Capture(0)
+		for _, x := range []struct {
+			name    string
+			got, s3 map[string]string
+		}{{"silences", got.Sils, st.S3.Sils}, {"notification log", got.Nf, st.S3.Nf}} {
+			w.Online.Ob("second-generation-snapshot-is-what-was-captured")
+			if !sameMap(x.got, x.s3) {
+				w.Online.Fail("C11", "C11/second-generation-snapshot-differs:"+strings.ReplaceAll(x.name, " ", "-"), w.H.now(), "crash before operation %d, restart, one completed maintenance snapshot, kill, restart: the instance holds %d %s records, the state captured after that snapshot had %d: %s",
+					st.armedK, len(x.got), x.name, len(x.s3), diffMap(x.got, x.s3))
+			}
 		}
 	})
 	// c11_arm: the process dies before mutating file-system operation number k of
@@ -242,6 +275,9 @@ func init() {
 			return
 		}
 		w.Online.Ob("restart-succeeds")
+		// "silences keep muting": the restarted instance's mute verdicts equal a direct
+		// evaluation of the silences it loaded
+		w.probeMutes("C11", 0, "after the restart")
 		got := w.c11Capture(0)
 		for _, x := range []struct {
 			name        string
@@ -400,6 +436,7 @@ func c11Gen(seed uint64, tier string) *Plan {
 	cfg := &Config{Route: &Route{Receiver: "r0"}, Receivers: []Receiver{{Name: "r0", Webhooks: []Webhook{{SendResolved: true}}}}}
 	p.Configs = []*Config{cfg}
 	p.Insts = []InstPlan{{Name: "a"}}
+	p.LabelSets = genLabelSets(rng.Fork("sets"), 6)
 	maint := rng.Dur(40*time.Second, 3*time.Minute) + 13
 	p.Opts = InstOpts{Retention: 200 * time.Hour, MaintenanceInterval: maint, AlertGCInterval: 30*time.Minute + 29, DispatchMaintenance: 30*time.Second + 7}
 	sizes := []int{0, 1, 2, 5, 20, 60}
@@ -439,7 +476,11 @@ func c11Gen(seed uint64, tier string) *Plan {
 		crashAt = at + time.Millisecond
 	}
 	b.add(Action{At: crashAt, Kind: "c11_crash_restart", N: outcome, Str: variant})
-	p.Horizon = crashAt + 5*time.Second
+	// second generation: the restarted instance's first own maintenance snapshot
+	// (one interval after its start), then a kill and another start
+	b.add(Action{At: crashAt + maint + 6*time.Second, Kind: "c11_capture", Str: "S3"})
+	b.add(Action{At: crashAt + maint + 7*time.Second, Kind: "c11_second_restart"})
+	p.Horizon = crashAt + maint + 12*time.Second
 	p.SortActions()
 	p.Params = map[string]any{"case_key": fmt.Sprintf("content%d %s k%d o%d", content, variant, k, outcome), "k": k, "outcome": outcome, "variant": variant, "n1": n1, "n2": n2}
 	return p
@@ -449,7 +490,7 @@ func init() {
 	Register(&Prop{
 		ID: "C11", Level: "fault_enumeration", Gen: c11Gen,
 		Check:       func(p *Plan, r *RunResult) *Verdict { return &Verdict{} },
-		Rule:        "case n = (content c, kind in {crash in a maintenance snapshot, crash in the shutdown snapshot, disk error in a maintenance snapshot followed by a kill}, point k in 0..13, power-loss outcome in {unsynced data lost, kept, torn} resp. error in {ENOSPC, EIO, short write}): every crash point of the snapshot pair (about 10 mutating file-system operations: create, write, sync, close, rename for each of the two files; k beyond the last one = crash right after completion) times every outcome is run for each content; contents have 0-60 (thorough up to 3000) silences/log entries per phase with 1-3 matcher sets, annotations, ended-but-retained silences, typed receiver data, new versions of old records in phase 2 and an API-created silence; one content in five also runs the loader on every prefix (all lengths up to 4 KiB, 600 sampled beyond) and 24 bit-flip corruptions of both snapshot files. Non-trivial: the restarted instance's state was compared with both snapshots; distinct: by (content, kind, k, outcome).",
+		Rule:        "case n = (content c, kind in {crash in a maintenance snapshot, crash in the shutdown snapshot, disk error in a maintenance snapshot followed by a kill}, point k in 0..13, power-loss outcome in {unsynced data lost, kept, torn} resp. error in {ENOSPC, EIO, short write}): every crash point of the snapshot pair (about 10 mutating file-system operations: create, write, sync, close, rename for each of the two files; k beyond the last one = crash right after completion) times every outcome is run for each content; contents have 0-60 (thorough up to 3000) silences/log entries per phase with 1-3 matcher sets, annotations, ended-but-retained silences, typed receiver data, new versions of old records in phase 2 and an API-created silence; one content in five also runs the loader on every prefix (all lengths up to 4 KiB, 600 sampled beyond) and 24 bit-flip corruptions of both snapshot files. After the comparison the restarted instance runs on for one maintenance interval, completes a snapshot of its own, is killed and started again: its state must equal what it held after that snapshot (leftovers of the first crash must not leak into later snapshots). Non-trivial: the restarted instance's state was compared with both snapshots; distinct: by (content, kind, k, outcome).",
 		Real:        []string{"app.New wiring", "silence.Silences and nflog.Log (Maintenance, Snapshot, openReplace/replaceFile, loadSnapshot, decodeState, Merge)", "app start-up on an existing data directory"},
 		Stub:        []string{"clock (synctest)", "disk: simfs (in-memory, journalled; power-loss model: namespace operations survive in order, file data only up to the last Sync)"},
 		Assumptions: []string{"power-loss model: create/rename/remove are durable in issue order (ordered metadata journal), file data is durable only after Sync on that file; a kill without power loss is the outcome 'all written data kept'", "the two snapshot writers run one after the other at a maintenance tick (one P); the crash point indexes their combined operation sequence"},
